@@ -10,6 +10,7 @@ package explore
 
 import (
 	"fmt"
+	"strings"
 	"time"
 )
 
@@ -37,6 +38,8 @@ type C struct {
 	outcome string
 	fail    *Failure
 	Replay  bool // true when running a recorded choice sequence
+	// divergedAt: position of the first recorded library-level point the execution did not repeat (-1: none)
+	divergedAt int
 }
 
 type Failure struct {
@@ -66,6 +69,12 @@ func (c *C) Choose(n int, kind ChoiceKind, label string) int {
 			f.n, f.kind, f.label = n, kind, label
 		}
 		if f.n != n || f.kind != kind {
+			if libraryPoint(f.label) && libraryPoint(label) && !c.Replay {
+				if c.divergedAt < 0 {
+					c.divergedAt = c.pos
+				}
+				panic(HarnessPanic(divergedMark)) // the code under test took another path than recorded: see Run
+			}
 			panic(HarnessPanic(fmt.Sprintf("explore: nondeterministic harness: replaying choice %d (%s) expected n=%d kind=%d, got n=%d kind=%d (%s)",
 				c.pos, f.label, f.n, f.kind, n, kind, label)))
 		}
@@ -88,6 +97,14 @@ func (c *C) Choose(n int, kind ChoiceKind, label string) int {
 	c.pos++
 	c.afterChoice()
 	return first
+}
+
+const divergedMark = "explore: execution diverged from its recorded prefix at a library-level point"
+
+// libraryPoint: scheduling and environment points are asked by the shimmed library code, all other
+// choices by the harness itself (whose nondeterminism stays a hard error).
+func libraryPoint(label string) bool {
+	return strings.HasPrefix(label, "sched:") || strings.HasPrefix(label, "env:")
 }
 
 // Gate is the sharding point of gate-sharded explorations: the body calls it
@@ -185,6 +202,9 @@ type Stats struct {
 	Failures   []*Failure
 	CapHit     string // non-empty when the enumeration was cut short
 	Elapsed    time.Duration
+	// Diverged counts subtrees abandoned because the code under test did not repeat the recorded
+	// scheduling / environment points when a choice prefix was replayed (e.g. it iterates a Go map)
+	Diverged int64
 }
 
 type Explorer struct {
@@ -212,13 +232,40 @@ func (e *Explorer) Run(body func(c *C)) {
 		e.Stats.Outcomes = map[string]int64{}
 	}
 	c := &C{e: e}
+	retries := 0
 	for {
-		c.pos, c.cost, c.outcome, c.fail = 0, 0, "", nil
+		c.pos, c.cost, c.outcome, c.fail, c.divergedAt = 0, 0, "", nil, -1
 		before := len(c.stack)
-		nowork, skipped := e.exec(c, body)
+		nowork, skipped, diverged := e.exec(c, body)
 		if nowork {
 			break
 		}
+		if !diverged && !skipped && c.pos < len(c.stack) && libraryPoint(c.stack[c.pos].label) {
+			diverged = true // ended before consuming the recorded library-level points
+			c.divergedAt = c.pos
+		}
+		if diverged {
+			// The code under test is not a deterministic function of the choices (it may iterate a Go
+			// map, whose order the runtime randomises).  Try the same prefix again a few times; if the
+			// recorded shape does not come back, give up the subtree below the point of divergence -
+			// counted, reported as a cap, never as a violation.
+			if retries < 3 {
+				retries++
+				c.stack = c.stack[:before]
+				continue
+			}
+			retries = 0
+			e.Stats.Diverged++
+			if c.divergedAt < 0 || c.divergedAt > before {
+				c.divergedAt = before
+			}
+			c.stack = c.stack[:c.divergedAt]
+			if !e.advance(c) {
+				break
+			}
+			continue
+		}
+		retries = 0
 		if skipped {
 			c.stack = c.stack[:c.pos] // only the choices made before the gate exist
 			if !e.advance(c) {
@@ -268,7 +315,7 @@ func (e *Explorer) Run(body func(c *C)) {
 	e.Stats.Elapsed += time.Since(start)
 }
 
-func (e *Explorer) exec(c *C, body func(c *C)) (nowork, skipped bool) {
+func (e *Explorer) exec(c *C, body func(c *C)) (nowork, skipped, diverged bool) {
 	defer func() {
 		if r := recover(); r != nil {
 			if r == errNoWork {
@@ -279,11 +326,15 @@ func (e *Explorer) exec(c *C, body func(c *C)) (nowork, skipped bool) {
 				skipped = true
 				return
 			}
+			if hp, ok := r.(HarnessPanic); ok && string(hp) == divergedMark {
+				diverged = true
+				return
+			}
 			panic(r)
 		}
 	}()
 	body(c)
-	return false, false
+	return false, false, false
 }
 
 // advance moves to the next leaf in depth-first order; false when done.
